@@ -132,6 +132,8 @@ var c04Muts = []mutSpec{
 	{kind: "outer-ech-empty", alerts: []int{alDecodeError, alIllegalParameter}},
 	{kind: "ech-empty-enc", alerts: []int{alIllegalParameter, alDecodeError, alDecryptError}},
 	{kind: "inner-ech-empty", alerts: []int{alDecodeError, alIllegalParameter}},
+	{kind: "inner-ech-type", alerts: []int{alIllegalParameter}},
+	{kind: "inner-ech-twice", alerts: []int{alIllegalParameter}},
 }
 
 func addAlerts(dst []int, src []int) []int {
@@ -204,7 +206,7 @@ func genC04(seed uint64, idx int) *Plan {
 		if ms.kind == "outer-ech-empty" && (hasMut(p.Mutations, "outer-ech-type") != nil || hasMut(p.Mutations, "ech-ext-lie") != nil) {
 			continue
 		}
-		isB := ms.kind == "inner-ech-empty" || ms.needRun || ms.needPad || ms.kind == "trunc-inner" || ms.kind == "inner-len-lie" || ms.kind == "inner-no-tls13" || ms.kind == "inner-no-ech" || ms.kind == "ext-remnant"
+		isB := ms.kind == "inner-ech-empty" || ms.kind == "inner-ech-type" || ms.kind == "inner-ech-twice" || ms.needRun || ms.needPad || ms.kind == "trunc-inner" || ms.kind == "inner-len-lie" || ms.kind == "inner-no-tls13" || ms.kind == "inner-no-ech" || ms.kind == "ext-remnant"
 		if isB && stageB {
 			continue // one deviation per inner hello, any number on the outer
 		}
@@ -220,6 +222,11 @@ func genC04(seed uint64, idx int) *Plan {
 		}
 		p.Mutations = append(p.Mutations, Mutation{Kind: ms.kind, A: int(r.Uint32() >> 1), B: int(r.Uint32() >> 1)})
 		p.Alerts = addAlerts(p.Alerts, ms.alerts)
+	}
+	if len(p.Mutations) == 1 && p.Mutations[0].Kind == "outer-has-oe" && idx%2 == 0 {
+		// the rule about ech_outer_extensions in an outer hello does not depend
+		// on the server having keys
+		p.Keys = nil
 	}
 	return &Plan{Kind: "script", Seed: seed, Script: p}
 }
@@ -297,6 +304,13 @@ func genC05(seed uint64, idx int) *Plan {
 			t.ID += byte(1 + r.IntN(200))
 		}
 		p.Target = t
+		if idx%4 == 0 {
+			// ... and an encapsulated key no X25519 key can use
+			p.Mutations = []Mutation{{Kind: "bad-enc", A: idx / 4}}
+			if (idx/16)%2 == 0 {
+				p.Target.KeySeed-- // sealed to the very key the server holds
+			}
+		}
 	case 6: // real ECH, server has no keys at all
 		p.Keys = nil
 		if r.IntN(2) == 0 {
@@ -311,6 +325,10 @@ func genC05(seed uint64, idx int) *Plan {
 	}
 	if (p.NoECH || p.Grease) && r.IntN(3) == 0 {
 		p.Keys = nil
+	}
+	if p.NoECH && p.NoVersions && idx%3 == 0 {
+		// an old client: no extensions (an empty block, or none at all)
+		p.ExtBlock = []string{"none", "empty"}[(idx/3)%2]
 	}
 	return &Plan{Kind: "script", Seed: seed, Script: p}
 }
